@@ -317,7 +317,7 @@ Proof.
         { do 8 (destruct ws as [|? ws]; [discriminate|]). destruct ws; [reflexivity|discriminate]. }
         rewrite L4 in Hj. cbn in Hj. exact Hj. }
       rewrite !app_length. cbn [length].
-      assert (length (if (l =? 5)%nat then to_hex 65535 ++ [58] else []) <= 5)%nat.
+      assert (length (if (l =? 5)%nat then to_hex 65535%N ++ [58%N] else []) <= 5)%nat.
       { destruct (l =? 5)%nat; [vm_compute; lia|cbn; lia]. }
       lia.
     + assert (Forall word_ok (firstn b ws)) as Hp by (apply Forall_firstn, Hf).
@@ -363,8 +363,8 @@ Proof.
   split; [exact H1|].
   destruct (words_text_nonul _ Hl8 Hw Hv) as (Hne & Hnn).
   unfold ipv6_from_string. fold (ipv6_to_text a) in Hne, Hnn.
-  destruct (ipv6_to_text a) as [|c r] eqn:E; [congruence|]. rewrite <- E.
-  rewrite cstr_nonul_id by (rewrite E; exact Hnn). exact H1.
+  destruct (ipv6_to_text a) as [|c r] eqn:E; [congruence|].
+  rewrite cstr_nonul_id by exact Hnn. exact H1.
 Qed.
 
 Lemma ipv6_text_length a : length a = 16%nat -> bytes_ok a = true ->
